@@ -135,8 +135,17 @@ def _default_terms(ty):
   return out
 
 
+def bytes_len_fn():
+  return z3.Function('bytes_len', z3.IntSort(), z3.IntSort())
+
+
 def coerce(v, ty):
   """Single z3 term of v at scalar/reference type ty."""
+  if ty.k == 'bytes' and isinstance(v, V) and v.ty.k == 'bytes':
+    # a byte string is storable by identity only when it is a single opaque chunk
+    if len(v.py) == 1 and v.py[0][0] == 'raw' and z3.eq(z3.simplify(v.py[0][2]), z3.simplify(bytes_len_fn()(v.py[0][1]))):
+      return v.py[0][1]
+    raise Unsupported('storing a composite byte string')
   if isinstance(v, (VFunc, VBound, VClass)) and ty.k in ('fn', 'any'):
     return z3.IntVal(v.fn_id)
   if isinstance(v, (VFunc, VBound, VClass, VModule)):
@@ -179,6 +188,9 @@ def from_terms(terms, ty):
   if ty.opt and ty.k in ('int', 'real', 'bool'):
     none = terms.pop(0)
     return V(ty, terms.pop(0), none=none)
+  if ty.k == 'bytes':
+    t = terms.pop(0)
+    return V(ty, py=[('raw', t, bytes_len_fn()(t))])
   return V(ty, terms.pop(0))
 
 
